@@ -56,7 +56,9 @@ type Prop struct {
 	// RunCase re-executes one recorded case (the JSON the Run function passed to
 	// Ctx.Fail) without the explorer and returns its failures.
 	RunCase func(c *Ctx, raw json.RawMessage) []Failure
-	// NeedsRace: the check additionally runs in the -race binary (handled by cmd/mc).
+	// Worker, when set, serves `mc <ID> --worker <arg>`: the part of the check that runs in
+	// another binary (the -race build) as a sub-process and reports with EmitWorkerResult.
+	Worker func(c *Ctx, arg string) int
 }
 
 var registry = map[string]*Prop{}
